@@ -28,6 +28,9 @@ TRUSTED = ["hand model ESRVerif/Model/Subs.lean of sympy's str() and sympify on 
            "3e-16 (checked numerically equal, not structurally)"]
 ASSUMPTIONS = ["real/rational semantics: -(-x)=x and 1/(1/x)=x for x != 0 (floating-point rounding not modelled)",
                "ranks are OS processes under the stand-in hub (pickle on every collective), not a real MPI progress engine"]
+# tables whose committed version may stand in as a hand-written model when the translator cannot read the source;
+# value = the correspondence that then ties it to the code (common.prove / common.decide)
+FALLBACK = {'Subs': 'get_all_dup, the str() of every template, load_subs and simplify_inv_subs (all chains) vs the Lean models'}
 MODELLED = ["simplifier.py:get_all_dup", "simplifier.py:simplify_inv_subs", "simplifier.py:load_subs",
             "simplifier.py:convert_params"]
 
